@@ -1423,7 +1423,7 @@ def module_attr(I, mod: ModuleVal, name: str):
             return getattr(_os, name)
     if mod.name == 'os.path':
         import os.path as _p
-        if name in ('join', 'split', 'normpath', 'basename', 'dirname', 'splitext'):
+        if name in ('join', 'split', 'normpath', 'basename', 'dirname', 'splitext', 'relpath'):
             def pathfn(*a, _n=name):
                 if all(isinstance(x, str) for x in a):
                     r = getattr(_p, _n)(*a)
